@@ -27,6 +27,9 @@ def generated_items(seed, tier, bias, scale=1.0):
     k = int(60 * scale) if tier == "quick" else len(casts)
     for name, text in rng.sample(casts, k):
         items.append(dict(name="cv:" + name, text=text))
+    for name, text in casts:
+        if name.startswith("bool") and not any(it["text"] == text for it in items):
+            items.append(dict(name="cv:" + name, text=text))  # typed declarations / casts with a boolean source: always all of them
     calls = gen.cast_call_matrix()
     for it in rng.sample(calls, int(24 * scale) if tier == "quick" else len(calls)):
         it = dict(it)
